@@ -907,7 +907,12 @@ func do_WITH_CLEANUP(vm *Vm, arg int32) error {
 
 	wasErr := false
 	if exc != py.None {
-		wasErr = res == py.True
+		// any true value returned by __exit__ suppresses the exception
+		b, err := py.MakeBool(res)
+		if err != nil {
+			return err
+		}
+		wasErr = b == py.True
 	}
 	if wasErr {
 		/* There was an exception and a True return */
